@@ -15,7 +15,7 @@ pub const RULE: &str = "cases = graphs accepted by build_sampler, half arbitrary
 pub fn gen_case(t: &mut Tape, tier: Tier) -> Option<G> {
     if t.bool() {
         let mut g = gen::gen_any_graph(t, tier);
-        if g.nedges() > tier.pick(7, 9) {
+        if g.nedges() > tier.pick(10, 12) {
             return None;
         }
         if t.chance(0.2) {
@@ -142,7 +142,7 @@ fn check_d<const D: usize>(g: &G, ctx: &mut Ctx) -> Result<(), Failure> {
 }
 
 pub fn check(g: &G, ctx: &mut Ctx) -> Result<(), Failure> {
-    if g.nedges() == 0 || g.nedges() > 10 || !(1..=6).contains(&g.d) {
+    if g.nedges() == 0 || g.nedges() > 13 || !(1..=6).contains(&g.d) {
         fail!("bad-case", "case outside the generator's domain");
     }
     with_d!(g.d, check_d(g, ctx))
